@@ -35,6 +35,7 @@ from _griffe.docstrings.models import (
 )
 from _griffe.docstrings.utils import docstring_warning, parse_docstring_annotation
 from _griffe.enumerations import DocstringSectionKind, LogLevel
+from _griffe.exceptions import AliasResolutionError, CyclicAliasError
 
 if TYPE_CHECKING:
     from re import Pattern
@@ -284,7 +285,8 @@ def _read_attributes_section(
             annotation = parse_docstring_annotation(annotation, docstring)
         else:
             name = name_with_type
-            with suppress(AttributeError, KeyError, TypeError, ValueError):
+            # The documented attribute can also be an alias that cannot be resolved.
+            with suppress(AttributeError, KeyError, TypeError, ValueError, AliasResolutionError, CyclicAliasError):
                 # Use subscript syntax to fetch annotation from inherited members too.
                 annotation = docstring.parent[name].annotation  # type: ignore[index]
 
